@@ -64,6 +64,7 @@ def run(repo: Repo, rep: Report) -> None:
     rep.rule("ENC-S", "active_edges_acyclic posts the reference at-most-one-lower-parent schema with pairwise distinct neighbour ranks (deviations triaged by projection)")
     rep.saw(GRAPH, "active_edges_acyclic")
     deviating = []
+    xitems: List[Any] = []
     n_ok = 0
     try:
         for gname, n, edges in GRAPHS:
@@ -73,6 +74,8 @@ def run(repo: Repo, rep: Report) -> None:
             inst.w.call("active_edges_acyclic", inst.s, act, g)
             refs, cons = ref_acyclic(n, edges)
             same, diff = compare(inst, refs, cons)
+            if n <= 4:
+                xitems.append((f"graph '{gname}' {edges}", inst, [a for a in inst.arrays if a["user"]][0]["ids"], (lambda n=n, edges=edges: forests(n, edges))))
             if same:
                 n_ok += 1
             else:
@@ -85,6 +88,9 @@ def run(repo: Repo, rep: Report) -> None:
         return
     if not deviating:
         rep.ok("ENC-S", f"active_edges_acyclic: constraint set equals the reference schema on {n_ok} graphs", points=n_ok)
+        from .encodings import cross_check
+
+        cross_check(rep, "active_edges_acyclic", "active_edges_acyclic", xitems, what="edge set")
     else:
         triage(rep, "active_edges_acyclic", "active_edges_acyclic", deviating, forests,
                lambda inst: [a for a in inst.arrays if a["user"]][0]["ids"], "edge set", "a forest")
